@@ -255,12 +255,21 @@ def r3_one_entry_per_part(ctx):
     body_lists = set()
     for (n, c) in fmts:
         if isinstance(n.ast, ast.Assign) and isinstance(n.ast.targets[0], ast.Name):
-            bp = n.ast.targets[0].id
+            bps = {n.ast.targets[0].id}
+            # plain copies of the formatted text (a helper's result handed on)
+            grew = True
+            while grew:
+                grew = False
+                for m in g.nodes:
+                    if not m.dup and graph.in_loop_body(m, part_loop.ast) and isinstance(m.ast, ast.Assign) and len(m.ast.targets) == 1 and isinstance(m.ast.targets[0], ast.Name) \
+                            and isinstance(m.ast.value, ast.Name) and m.ast.value.id in bps and m.ast.targets[0].id not in bps:
+                        bps.add(m.ast.targets[0].id)
+                        grew = True
             for m in g.nodes:
                 if m.dup or not graph.in_loop_body(m, part_loop.ast):
                     continue
                 for cc in node_calls(m):
-                    if _callee(cc) == 'append' and cc.args and is_name(cc.args[0], bp) and isinstance(cc.func.value, ast.Name):
+                    if _callee(cc) == 'append' and cc.args and isinstance(cc.args[0], ast.Name) and cc.args[0].id in bps and isinstance(cc.func.value, ast.Name):
                         body_lists.add(cc.func.value.id)
     need(len(body_lists) == 1, 'C19.R3: the list collecting the per-part texts was not recognised')
     bl = next(iter(body_lists))
